@@ -43,6 +43,10 @@ func checkC07(c *Ctx) {
 	c.NotDec = append(c.NotDec, "HKDF and the AEADs themselves (standard library / x/crypto)", "DH correctness (C06)", "that differing inputs change the outputs (hash behaviour)")
 	c.Trusted = append(c.Trusted, "golang.org/x/crypto/hkdf", "crypto/aes, crypto/cipher, x/crypto/chacha20poly1305")
 
+	// the DHKEMs dispatch through a by-value copy of themselves made in init: the copy has to be taken after
+	// the identifier (which enters every labelled hash as suite_id) and the hash have been assigned
+	checkInitCopy(c, p, "C07", []string{"hpke"})
+
 	none := `nil|""`
 	suiteLE, suiteLX := "(hpke.Suite).labeledExtract", "(hpke.Suite).labeledExpand"
 	kemLE, kemLX := "(hpke.kemBase).labeledExtract", "(hpke.kemBase).labeledExpand"
